@@ -15,6 +15,7 @@ import (
 	"github.com/KevoDB/kevo/pkg/replication"
 
 	"verif/internal/drive"
+	"verif/internal/ev"
 )
 
 const (
@@ -101,6 +102,15 @@ type runner struct {
 	lat      map[string][]int64
 	attached bool
 	bytesAtt int // payload bytes written since the faulty replica was attached
+
+	step      string // what the driver itself is doing outside client calls
+	stepSince time.Time
+}
+
+func (r *runner) setStep(s string) {
+	r.mu.Lock()
+	r.step, r.stepSince = s, time.Now()
+	r.mu.Unlock()
 }
 
 var gidRe = regexp.MustCompile(`^goroutine (\d+) `)
@@ -151,7 +161,19 @@ func (r *runner) watchdog() {
 			}
 		}
 		bytesAtt := r.bytesAtt
+		step, stepSince := r.step, r.stepSince
 		r.mu.Unlock()
+		if late == nil && step != "" && time.Since(stepSince) > 90*time.Second {
+			// the driver itself is stuck (Status(), a scan, ...): not a client call of
+			// the property, reported unjudged with the dump
+			buf := make([]byte, 2<<20)
+			buf = buf[:runtime.Stack(buf, true)]
+			res := *r.res
+			res.Verdict, res.Sig = "abandon", "driver-step-hang:"+step
+			res.Msg = fmt.Sprintf("driver step %q did not return within 90 s\n%s", step, interesting(string(buf)))
+			writeResult(r.spec.Out, &res)
+			os.Exit(0)
+		}
 		if late == nil {
 			continue
 		}
@@ -160,7 +182,7 @@ func (r *runner) watchdog() {
 		where := blockedAt(string(buf), late.gid)
 		res := *r.res
 		res.Verdict = "violation"
-		res.Sig = fmt.Sprintf("primary-call-blocked:%s:fault=%s:at=%s", late.op, r.c.Fault.Class, where)
+		res.Sig = fmt.Sprintf("primary-call-blocked:fault=%s:%s:at=%s", r.c.Fault.Class, late.op, where)
 		res.BytesAtBlock = bytesAtt
 		res.Msg = fmt.Sprintf("primary %s did not return within %v (fault class %s, healthy replicas %d, %d payload bytes written since the faulty replica was attached); "+
 			"blocked at %s; other calls in flight: %v\n%s", late.op, callBound, r.c.Fault.Class, r.c.Healthy, bytesAtt, where, others, interesting(string(buf)))
@@ -238,8 +260,13 @@ func convBound(c *Case) time.Duration {
 // clause is judged (see the package comment in c15_test.go).
 func dropRequired(class string) bool {
 	switch class {
-	case "stalled_reader", "tcp_stall", "tcp_reset", "no_ack":
+	case "stalled_reader", "tcp_stall", "tcp_reset":
 		return true
+	case "no_ack":
+		// open finding (a session that is read but never acknowledged is never
+		// dropped): with the flag off the class is still generated and judged by
+		// clauses 1 and 3; the drop is observed and counted only
+		return ev.Flag("missing_ack_drop")
 	}
 	return false
 }
@@ -273,11 +300,13 @@ func runCase(spec *ChildSpec) *Result {
 		}
 		healthy = append(healthy, n)
 	}
+	go r.watchdog()
+	r.setStep("wait-healthy-sessions")
 	for _, n := range healthy {
 		for dl := time.Now().Add(10 * time.Second); time.Now().Before(dl) && !hasSession(prim.Mgr, n.Addr); time.Sleep(5 * time.Millisecond) {
 		}
 	}
-	go r.watchdog()
+	r.setStep("")
 
 	// ---- fault injection ---------------------------------------------------
 	var (
@@ -289,6 +318,8 @@ func runCase(spec *ChildSpec) *Result {
 	)
 	attach := func() *Result {
 		var err error
+		r.setStep("attach-faulty")
+		defer r.setStep("")
 		switch c.Fault.Class {
 		case "stalled_reader":
 			raw, err = dialRaw(prim.Addr, faultyAddr)
@@ -384,7 +415,7 @@ func runCase(spec *ChildSpec) *Result {
 		r.end(id)
 		if err != nil {
 			res.Verdict = "violation"
-			res.Sig = fmt.Sprintf("primary-call-failed:%s:fault=%s:%s", s.Op, c.Fault.Class, errClass(err))
+			res.Sig = fmt.Sprintf("primary-call-failed:fault=%s:%s:%s", c.Fault.Class, s.Op, errClass(err))
 			res.Msg = fmt.Sprintf("step %d (%s) on the primary returned an error with fault class %s attached: %v", i, s.Op, c.Fault.Class, err)
 			r.finishStats(res)
 			return res
@@ -401,7 +432,7 @@ func runCase(spec *ChildSpec) *Result {
 	res.WorkMs = time.Since(t0).Milliseconds()
 	if readerErr != nil {
 		res.Verdict = "violation"
-		res.Sig = fmt.Sprintf("primary-call-failed:get(reader):fault=%s:%s", c.Fault.Class, errClass(readerErr))
+		res.Sig = fmt.Sprintf("primary-call-failed:fault=%s:get(reader):%s", c.Fault.Class, errClass(readerErr))
 		res.Msg = "a concurrent Get on the primary returned an error: " + readerErr.Error()
 		r.finishStats(res)
 		return res
@@ -410,6 +441,7 @@ func runCase(spec *ChildSpec) *Result {
 
 	// ---- clause 2: the faulty session leaves the reported topology -----------
 	endWork := time.Now()
+	r.setStep("judge")
 	if c.Fault.Class != "none" {
 		bound := time.Duration(res.DropBoundMs) * time.Millisecond
 		if !dropRequired(c.Fault.Class) {
